@@ -536,6 +536,7 @@ func (e *Engine) transfer(s *State, fr *Frame, to *ssa.BasicBlock, in ssa.Instru
 			fr.prev = from
 			fr.block = to
 			fr.idx = 0
+			e.applyLoopStepAnchors(s, fr, lc, in)
 			e.checkInvariants(s, fr, lc, "invariant.step", in.Pos())
 			s.dead = true
 			return nil, true
